@@ -292,12 +292,13 @@ def check_samples(acc, seq, size, offset):
             return
     else:
         # decimal sample size (the documented default 0.1): the grid is built in single precision, so the returned
-        # times are only required to be the nominal grid to 1e-6; what the property fixes is that each RETURNED
+        # times are only required to be the nominal grid to single precision; what the property fixes is that each RETURNED
         # time carries the label of the interval containing THAT time
         n = int(float(tmax) / size)
-        if len(times) != n or any(abs(t - (k * size + offset)) > 1e-6 for k, t in enumerate(times)):
+        if len(times) != n or any(abs(t - (k * size + offset)) > 1e-7 + 5e-7 * abs(k * size + offset)
+                                  for k, t in enumerate(times)):
             acc.violation("sample-times", site, case, observed=list(times),
-                          expected="k*%g+%g to 1e-6, k<%d" % (size, offset, n))
+                          expected="k*%g+%g to single precision (5e-7 relative), k<%d" % (size, offset, n))
             return
         want_t = [Fr(t) for t in times]
     want = [model_interp(seq, labels, t) for t in want_t]
